@@ -183,11 +183,23 @@ def cargoPair (content : Text) (pair : Node) : Option PkgInfo :=
   | some n, some (v, s, e, l, c) => some ⟨n, v, none, s, e, l, c, none⟩
   | _, _ => none
 
+/-- text after the LAST `sep` (`rsplit_once(sep)`), or the whole text if there is none -/
+def afterLast (sep : Char) (t : Text) : Text :=
+  match (splitChar sep t).getLast? with
+  | some l => l
+  | none => t
+
+/-- the section a table header names: `[target.<cfg>.dependencies]` names `dependencies` -/
+def cargoSection (name : Text) : Text :=
+  match stripPrefix "target.".toList name with
+  | some rest => afterLast '.' rest
+  | none => name
+
 def cargoTable (content : Text) (table : Node) : List PkgInfo :=
   match tableName content table with
   | none => []
   | some name =>
-    if !strIn Generated.dependencyTables name then []
+    if !strIn Generated.dependencyTables (cargoSection name) then []
     else (table.children.filter (·.kind == "pair")).filterMap (cargoPair content)
 
 def cargoToml (content : Text) (tree : Node) : List PkgInfo :=
